@@ -17,7 +17,9 @@ EXPLANATION = (
     "flattening descends only through BitOr nodes and keeps operand order (the deque built while walking left equals the in-order operand sequence). "
     "R20.3 each _GENERICS entry maps a builtin name to the typing alias whose __origin__ is that builtin, no value is itself a key and values are dotted "
     "(so a second pass is the identity), and transform() applies the transformer to the whole parsed tree and unparses the result. "
-    "R20.4 no path constructs a BitOr BinOp; the union subscript is built from the configured union name and the visited operands."
+    "R20.4 no path constructs a BitOr BinOp; the union subscript is built from the configured union name and the visited operands. "
+    "R20.5 outside those two rewrites every visit_X override is a homomorphism: it returns the node (possibly after generic_visit, or after storing "
+    "visited children back into their own fields) or a new ast.X whose every grammar field is the image (the field itself / its visit) of the same field."
 )
 ASSUMPTIONS = [
     "structural equality of the *evaluated* types, and AST identity for inputs without the constructs, are runtime statements (ND)",
@@ -298,11 +300,126 @@ def r20_4(prog: Program, rep: Report, cls):
     rep.check(not bad, "R20.4", cls.qualname, cls.loc, "no method constructs a BinOp/BitOr node", f"a PEP 604 union is constructed: {bad[:2]}")
 
 
+def all_fields(node_name: str) -> list[tuple[str, str]]:
+    """(field, grammar type) for every field of ast.<node_name>."""
+    doc = getattr(ast, node_name).__doc__ or ""
+    m = re.match(rf"{node_name}\((.*)\)", doc.replace("\n", " "))
+    out = []
+    if m:
+        for part in m.group(1).split(","):
+            part = part.strip()
+            if part:
+                ty, _, name = part.rpartition(" ")
+                out.append((name, ty))
+    return out
+
+
+def _is_self_visit(tm) -> bool:
+    return tm[0] == "call" and tm[1] in (("attr", ("param", "self"), "visit"), ("attr", ("param", "self"), "generic_visit")) and len(tm[2]) == 1 and not tm[3]
+
+
+def _field_image(field: str, ty: str, val) -> str | None:
+    """None when `val` is the image of node.<field> under the transformer (the child itself or its visit), else the reason."""
+    f = ("attr", NODE, field)
+    base = ty.rstrip("*?")
+    if base != "expr":
+        if val == f:
+            return None
+        if base == "expr_context" and T.is_call_to(val, "ast.Load") and not val[2] and not val[3]:
+            return None  # an annotation is parsed in eval mode: every context in it is Load
+        return f"`{field}` ({ty}) is not the node's own `{field}`: {T.show(val)[:70]}"
+    if not ty.endswith("*"):
+        if val == f or (_is_self_visit(val) and val[2][0] == f):
+            return None
+        return f"`{field}` is not self.visit(node.{field}): {T.show(val)[:70]}"
+    # list of expressions: [self.visit(n) for n in node.f] | list(map(self.visit, node.f)) | node.f
+    if val == f:
+        return None
+    if val[0] == "comp" and val[1] == "list" and len(val[3]) == 1 and val[3][0][0] == f and not val[4]:
+        e = val[2]
+        if e == ("elem", f) or (_is_self_visit(e) and e[2][0] == ("elem", f)):
+            return None
+    if val[0] == "call" and T.refname(val[1]) in ("builtins.list", "list") and len(val[2]) == 1:
+        inner = val[2][0]
+        if inner[0] == "call" and T.refname(inner[1]) in ("builtins.map", "map") and len(inner[2]) == 2:
+            if inner[2][0] in (("attr", ("param", "self"), "visit"),) and inner[2][1] == f:
+                return None
+    if val[0] == "list" and any(x[0] == "star" for x in val[1:] if isinstance(x, tuple)):
+        pass
+    return f"`{field}` is not the list of visited elements of node.{field}: {T.show(val)[:70]}"
+
+
+def r20_5(prog: Program, rep: Report, cls):
+    """Outside the two rewrites (a BitOr chain, a Name in _GENERICS) every override is a homomorphism: what it returns is the
+    node itself (possibly after generic_visit / after storing visited children back into their own fields) or a new node of the
+    same class whose every field is the image of the same field of the input."""
+    for name, m in sorted(cls.methods.items()):
+        if not name.startswith("visit_"):
+            continue
+        node_name = name[len("visit_") :]
+        if not hasattr(ast, node_name):
+            continue
+        fields = all_fields(node_name)
+        ps = P.splice_helpers(prog, P.paths_of(prog, m))
+        for i, p in enumerate(ps):
+            if p.exit[0] != "return":
+                continue
+            r = p.exit[1]
+            gs = "; ".join(("" if pol else "not ") + T.show(g)[:50] for g, pol in p.guards()) or "unconditional"
+            # the two rewrites are judged by R20.2 / R20.3
+            if node_name == "BinOp" and T.is_call_to(r, "ast.Subscript"):
+                continue
+            # (the rewrite of a Name: its new id is looked up, under the node's own id, in whatever table R20.3 judges)
+            ID = ("attr", NODE, "id")
+            if node_name == "Name" and T.is_call_to(r, "ast.Name") and T.contains(dict(r[3]).get("id", ("const", None)), lambda x: (x[0] == "sub" and x[2] == ID) or (x[0] == "call" and x[1][0] == "attr" and x[1][2] == "get" and x[2][:1] == (ID,))):
+                continue
+            why = None
+            # stores into the input node
+            for e in p.events:
+                if e[0] == "setattr" and e[1] == NODE:
+                    ty = dict(fields).get(e[2])
+                    if ty is None:
+                        continue  # location attributes and the like
+                    w = _field_image(e[2], ty, e[3])
+                    if w:
+                        why = "the input node is modified: " + w
+            if why is None:
+                if r == NODE or (_is_self_visit(r) and r[2][0] == NODE):
+                    pass
+                elif T.is_call_to(r, f"ast.{node_name}"):
+                    given = dict(r[3])
+                    for (fname, _), v in zip(fields, r[2]):
+                        given.setdefault(fname, v)
+                    for fname, ty in fields:
+                        if fname not in given:
+                            if ty.endswith("?") or ty.endswith("*"):
+                                why = f"`{fname}` of the rebuilt ast.{node_name} is dropped"
+                                break
+                            why = f"`{fname}` of the rebuilt ast.{node_name} is not given"
+                            break
+                        w = _field_image(fname, ty, given[fname])
+                        if w:
+                            why = w
+                            break
+                elif r[0] == "call" and r[1][0] == "ref" and r[1][1].startswith("ast."):
+                    why = f"an ast.{node_name} is replaced by {T.show(r)[:60]}"
+                else:
+                    rep.undecided("R20.5", m.qualname, m.loc, f"path [{gs}]: the returned value {T.show(r)[:80]} is neither the node nor a rebuilt ast.{node_name}", detail=f"path{i}")
+                    continue
+            rep.check(
+                why is None, "R20.5", m.qualname, m.loc,
+                f"path [{gs}]: the result is the node, or an ast.{node_name} whose fields are the images of the input's fields",
+                f"path [{gs}]: a tree with no `|` union and no builtin generic does not come back unchanged: {why}",
+                detail=f"path{i}",
+            )  # fmt: skip
+
+
 def run(prog: Program, rep: Report, tier: str):
     rep.rule("R20.1", "traversal completeness of every visit_X override", floor=5)
     rep.rule("R20.2", "BitOr-only chain flattening, operand order, union construction", floor=4)
     rep.rule("R20.3", "_GENERICS agrees with typing; fixpoint; transform() pipeline", floor=8)
     rep.rule("R20.4", "no BitOr BinOp is constructed", floor=1)
+    rep.rule("R20.5", "every override is a homomorphism outside the two rewrites", floor=3)
     cls = prog.cls(f"{MOD}.TransformAnnotation")
     bases = prog.external_bases(cls)
     if "ast.NodeTransformer" not in bases:
@@ -311,3 +428,4 @@ def run(prog: Program, rep: Report, tier: str):
     r20_2(prog, rep, cls)
     r20_3(prog, rep)
     r20_4(prog, rep, cls)
+    r20_5(prog, rep, cls)
